@@ -216,6 +216,20 @@ func extractC01(c *ctxT) {
 			}
 		}
 	}
+	// ---- where the summed powers come from: TryAttestation adds `oracle.GetPower()` of the found oracle; SetLastTotalPower
+	// sums `oracle.GetPower()` over GetAllOracles(ctx, true) (online only) and stores the sum
+	tallyGetPower, totalOnlineGetPower := false, false
+	if fd := c.findFunc(c01Keeper, "Keeper", "TryAttestation"); fd != nil && fd.Body != nil {
+		body := strings.Join(strings.Fields(stripComments(c.src(fd.Body))), " ")
+		tallyGetPower = strings.Contains(body, "oracle, found := k.GetOracle(ctx, oracleAddr)") &&
+			strings.Contains(body, "oraclePower := oracle.GetPower() attestationPower = attestationPower.Add(oraclePower)")
+	}
+	if fd := c.findFunc(c01Keeper, "Keeper", "SetLastTotalPower"); fd != nil && fd.Body != nil {
+		body := strings.Join(strings.Fields(stripComments(c.src(fd.Body))), " ")
+		totalOnlineGetPower = strings.HasPrefix(body, "{ oracles := k.GetAllOracles(ctx, true) totalPower := sdkmath.ZeroInt() for _, oracle := range oracles { totalPower = totalPower.Add(oracle.GetPower()) }") &&
+			strings.Contains(body, "store.Set(types.LastTotalPowerKey, k.cdc.MustMarshal(&sdk.IntProto{Int: totalPower}))")
+	}
+
 	// ---- AttestationHandler: the three deferred claim types are only parked (SavePendingExecuteClaim), nothing else runs
 	parksOnly := false
 	if fd := c.findFunc(c01Keeper, "Keeper", "AttestationHandler"); fd != nil && fd.Body != nil {
@@ -513,6 +527,9 @@ func extractC01(c *ctxT) {
 	w("checkBridgerIsOracle: `if !oracle.Online { return err }`", "claimRequiresOnline", "Bool", leanBool(online))
 	w("UnbondedOracle calls DelLastEventNonceByOracle", "unbondDeletesLastNonce", "Bool", leanBool(unbondDel))
 	w("UnbondedOracle and the delegate address' staking unbonding delegation: error unless one exists / ErrInvalid while one exists", "unbondUbdRule", "UbdRule", "."+ubdRule)
+	w("TryAttestation adds exactly `oracle.GetPower()` of each found voter to the attestation power", "tallyAddsGetPower", "Bool", leanBool(tallyGetPower))
+	w("SetLastTotalPower stores the sum of `GetPower()` over GetAllOracles(ctx, true) (online oracles)", "totalSumsOnlineGetPower", "Bool", leanBool(totalOnlineGetPower))
+	w("Oracle.GetPower is `DelegateAmount.Quo(sdk.DefaultPowerReduction)` (truncating)", "getPowerTruncates", "Bool", leanBool(powerOk))
 	w("TryAttestation: once the bar is reached `SetLastObservedEventNonce(claim nonce)` runs unconditionally", "observeSetsLastObserved", "Bool", leanBool(obsSetsLast))
 	w("TryAttestation: once the bar is reached `att.Observed = true` is stored with SetAttestation", "observeMarksObserved", "Bool", leanBool(obsMarks))
 	w("TryAttestation: the handler runs through processAttestation (cache context)", "observeRunsHandler", "Bool", leanBool(obsProcess))
@@ -555,7 +572,8 @@ func extractC01(c *ctxT) {
 		"online": online, "unbondDeletesLastNonce": unbondDel, "fallback": fallback,
 		"execChecksPending": execChecks, "execDeletesPending": execDeletes, "execDeletesBeforeHandler": execDeleteFirst,
 		"execErrorRevertsNativeAction": execInNative, "observeSetsLastObserved": obsSetsLast, "observeMarksObserved": obsMarks,
-		"observeRunsHandler": obsProcess, "observeBreaksLoop": obsBreaks, "deferredClaimsOnlyParked": parksOnly}
+		"observeRunsHandler": obsProcess, "observeBreaksLoop": obsBreaks, "deferredClaimsOnlyParked": parksOnly,
+		"tallyAddsGetPower": tallyGetPower, "totalSumsOnlineGetPower": totalOnlineGetPower}
 	for k, v := range facts {
 		c.facts[k] = v
 	}
